@@ -154,7 +154,10 @@ def run(ck):
     ck.rule = ('for every importable problem class and each registered variant (solver type, boundary condition, order, splitting): '
                'factor 0 and seeded factors log-uniform in the admissible range (1e-6..1e2 unless the registry narrows it), random time, '
                'random right-hand side / initial guess (linear classes) or manufactured right-hand side rhs = u* - factor f(u*) with a perturbed '
-               'initial guess (Newton classes); a case is distinct by (class, variant, method, trial) and non-trivial when factor != 0')
+               'initial guess (Newton classes); plus call-history cases per variant: solve as the very first call of a fresh instance at t in [1,3], and '
+               'solve at t in [1,3] right after an eval_f / solve_system at t1 in [0,0.3] on the same instance, factor in the upper half of the '
+               'range, inputs manufactured by a second instance and the residual measured with the eval_f of a third, fresh instance; '
+               'a case is distinct by (class, variant, method, trial) and non-trivial when factor != 0')
     ck.check_props(required=['C12_check_solve_cert_sound', 'C12_factor_zero', 'C12_check_lin_cert_sound', 'C12_check_resid_cert_sound',
                              'C12_resid_and_apply_give_contract', 'C12_split_sum', 'C12_contract_unique', 'C12_solve_cert_unique'])
 
@@ -178,7 +181,8 @@ def run(ck):
         rng.shuffle(rest)
         chosen = set(id(v) for v in rest[:12])
         variants = [v for v in variants if v.always or id(v) in chosen]
-    ntrials = 6 if thorough else 3
+    ntrials = 6 if thorough else 2
+    nhist = 2 if thorough else 1
     ck.cov['variants_run'] = len(variants)
     ck.cov['variants_registered'] = len(L.REG)
 
@@ -211,14 +215,46 @@ def run(ck):
                 _exempt_case(ck, var, prob, method, rng, violate)
                 continue
             op_static = None
-            for j in range(ntrials):
-                factor = L.pick_factor(var, rng, j)
-                t = rng.uniform(0.0, 1.0)
+            cls = classes[var.key]
+            dyn = var.key in DYNAMIC_OP
+            plan = [(j, None) for j in range(ntrials)] + [(k, h) for k in range(nhist) for h in ('fresh-nonzero-t', 'after-other-time')]
+            for j, history in plan:
+                solver, builder, evaluator, prior, t1 = prob, None, None, None, None
+                if history is None:
+                    factor = L.pick_factor(var, rng, j)
+                    t = rng.uniform(0.0, 1.0)
+                else:
+                    # the contract must hold regardless of the call history of the instance: solve on a fresh instance
+                    # at t != 0 / after a call at another time, and measure the residual with an INDEPENDENT fresh instance
+                    factor = L.pick_factor_upper(var, rng)
+                    t = rng.uniform(1.0, 3.0)
+                    t1 = rng.uniform(0.0, 0.3)
+                    try:
+                        builder = cls(**var.params)
+                        evaluator = None if dyn else cls(**var.params)
+                        if history == 'fresh-nonzero-t':
+                            solver = cls(**var.params)
+                        else:
+                            what_prior = rng.choice(('eval_f', 'solve'))
+
+                            def prior(pp, what_prior=what_prior, t1=t1, builder=builder, factor=factor):
+                                if what_prior == 'eval_f':
+                                    pp.eval_f(L.make_u(pp, (var.state or L.st_uniform())(pp, rng)), t1)
+                                else:
+                                    r1, u1 = L.build_inputs(var, builder, method, part, rng, factor, t1)
+                                    try:
+                                        getattr(pp, method)(L.make_u(pp, np.asarray(r1)), factor, L.make_u(pp, np.asarray(u1)), t1)
+                                    except Exception:
+                                        pass
+                    except Exception as e:
+                        violate('constructing %s raised %s: %s' % (var.id, type(e).__name__, e), {'class': var.key, 'params': repr(var.params)},
+                                {'kind': 'construct', 'class': var.key, 'variant': var.label}, ('construct', var.id))
+                        continue
                 r = None
                 for attempt in range(6):
-                    stored0 = _stored_bytes(prob, var) if var.key not in DYNAMIC_OP else None
-                    r = L.run_solve(var, prob, method, part, rng, factor, t, CFG_SLACK, ULP_SLACK)
-                    if r['error'] is None and var.consistent is not None and not var.consistent(prob, r['rhs'], r['u'], t):
+                    stored0 = _stored_bytes(solver, var) if not dyn else None
+                    r = L.run_solve(var, solver, method, part, rng, factor, t, CFG_SLACK, ULP_SLACK, builder=builder, evaluator=evaluator, prior=prior)
+                    if r['error'] is None and var.consistent is not None and not var.consistent(solver, r['rhs'], r['u'], t):
                         stats['inconsistent_switch_skipped'] += 1
                         r = None
                         continue
@@ -227,13 +263,18 @@ def run(ck):
                     continue
                 stats['solve_cases'] += 1
                 factor_hist['0' if factor == 0 else '<1e-3' if factor < 1e-3 else '<1' if factor < 1 else '>=1'] += 1
-                cid = '%s|%s|%d' % (var.id, method, j)
+                cid = '%s|%s|%d' % (var.id, method, j) if history is None else '%s|%s|%s%d' % (var.id, method, history, j)
+                if history:
+                    stats['history_cases'] = stats.get('history_cases', 0) + 1
                 base_replay = {'class': var.key, 'variant': var.label, 'params': repr(var.params), 'method': method, 'part': part,
+                               'history': history, 't_previous_call': t1,
                                'factor': factor, 't': t, 'rhs': hexlist(r['rhs']), 'u0': hexlist(r['u0']),
                                'complex': bool(np.iscomplexobj(r['rhs']))}
                 match = {'kind': 'solve-residual', 'class': var.key, 'variant': var.label, 'method': method, 'factor_zero': factor == 0.0}
                 if var.tag:
                     match['input'] = var.tag
+                if history:
+                    match['history'] = history
                 ck.case(key=cid, nontrivial=factor != 0.0,
                         sample={'class': var.key, 'variant': var.label, 'method': method, 'factor': factor, 't': t, 'n': int(np.asarray(r['rhs']).size)})
                 ck.traces += 1
@@ -251,7 +292,7 @@ def run(ck):
                 if not r['type_ok']:
                     violate('%s.%s returned %s instead of a %s of the right shape' % (var.id, method, 'wrong type/shape', prob.dtype_u.__name__),
                             base_replay, {'kind': 'result-type', 'class': var.key, 'method': method}, ('type', var.id, method))
-                if stored0 is not None and stored0 != _stored_bytes(prob, var):
+                if stored0 is not None and stored0 != _stored_bytes(solver, var):
                     violate('%s.%s / eval_f changed the stored operator of the problem' % (var.id, method), base_replay,
                             {'kind': 'stored-state-mutated', 'class': var.key, 'method': method}, ('stored', var.id, method))
                 rr = r['res'] / r['tol'] if r['tol'] > 0 else float('inf')
@@ -262,19 +303,20 @@ def run(ck):
                     stats['worst_res_over_floor_direct'] = max(stats['worst_res_over_floor_direct'], r['res'] / r['floor'])
                 replay = dict(base_replay, u=hexlist(r['u']), residual_maxnorm=r['res'], tolerance=r['tol'], rounding_floor=r['floor'],
                               configured_tol=r['cfg'])
-                what = ('%s.%s: |u - factor*f_%s(u) - rhs|_inf = %.3e exceeds %.3e (= %g*configured %.1e + %g*rounding floor %.1e) at factor=%g'
-                        % (var.id, method, part, r['res'], r['tol'], CFG_SLACK, r['cfg'], ULP_SLACK, r['floor'], factor))
+                what = ('%s.%s%s: |u - factor*f_%s(u) - rhs|_inf = %.3e exceeds %.3e (= %g*configured %.1e + %g*rounding floor %.1e) at factor=%g'
+                        % (var.id, method, ' [call history: %s, residual measured with an independent fresh instance]' % history if history else '',
+                           part, r['res'], r['tol'], CFG_SLACK, r['cfg'], ULP_SLACK, r['floor'], factor))
                 if not r['finite']:
                     what = '%s.%s returned non-finite values at factor=%g' % (var.id, method, factor)
                 if not r['ok']:
-                    violate(what, replay, match, ('res', var.key, method, factor == 0.0, var.tag))
+                    violate(what, replay, match, ('res', var.key, method, factor == 0.0, var.tag, history))
                 # ---------------- Coq certificates
                 n_real = int(np.asarray(r['u']).size) * (2 if np.iscomplexobj(r['u']) else 1)
                 if not r['finite'] or n_real > MAX_COQ_DIM:
                     continue
                 meta = {'id': cid, 'var': var, 'method': method, 'replay': replay, 'match': match, 'oracle_ok': r['ok'], 'what': what, 'n': n_real}
                 if var.kind == 'linear':
-                    op_static = _linear_case(col, meta, var, prob, method, part, r, t, op_static)
+                    op_static = _linear_case(col, meta, var, evaluator if evaluator is not None else solver, method, part, r, t, op_static)
                 else:
                     _resid_case(col, meta, r)
 
@@ -303,7 +345,7 @@ def run(ck):
     ck.cov['default_newton_configs_checked'] = ncfg
 
     # ------------------------------------------------------------------ other clauses
-    _spectral_cases(ck, col, classes, variants, rng, ntrials, violate, stats)
+    _spectral_cases(ck, col, classes, variants, rng, max(ntrials, 3), violate, stats)
     _split_siblings(ck, col, classes, rng, thorough, violate)
     _exact_solutions(ck, classes, rng, thorough, violate)
     _particles(ck, classes, variants, rng, violate)
@@ -347,7 +389,7 @@ def run(ck):
         ck.evaluations += 1
         if bad:
             nfalse += 1
-            key = ('coq', meta['ckind'], meta.get('group', meta['id'].split('|')[0]), tuple(bad), meta['match'].get('factor_zero'))
+            key = ('coq', meta['ckind'], meta.get('group', meta['id'].split('|')[0]), tuple(bad), meta['match'].get('factor_zero'), meta['match'].get('history'))
             if key in reported:
                 continue
             reported.add(key)
